@@ -26,7 +26,9 @@ for pid in ids:
             "design_ref": "DESIGN.md section 3, %s" % pid,
         },
         "level_note": P.get("level_note", "") or ("Bounds: %s. Outside the claim: %s. Trusted: Kani/CBMC/CaDiCaL, rustc MIR semantics as modelled by Kani, stubs listed in the evidence." % (P.get("bounds", ""), P.get("outside", "nothing stated"))),
-        "technique": P.get("technique", "solver-based bounded model checking of the real code (Kani 0.68 / CBMC 6.11 + CaDiCaL) with native replay of counterexamples"),
+        "technique": P.get("technique", "solver-based bounded model checking of the real code (Kani 0.68 / CBMC 6.11 + CaDiCaL) with native replay of counterexamples"
+                           + ("; plus syntactic source extractors (" + ", ".join(P["extractors"]) + ") reported as side conditions" if P.get("extractors") else "")
+                           + ("; the listed known finding is re-demonstrated by a native program (its region is intractable for the solver)" if pid in ("C17", "C24") else "")),
     })
 na = []
 for pid in ids:
